@@ -332,9 +332,11 @@ func (fx *FnCtx) appendCall(st *State, pc *Term, s, t Value, tt types.Type, rt t
 					fx.assume(Implies(And(pc, Not(fits)), Eq(Select(nw, tc.IdxAdd(slen, kk)), Select(Select(h, tid), tc.IdxAdd(toff, kk)))))
 				}
 			} else {
-				j2 := BoundVar("j", tc.IdxSort())
-				a2 := Forall([]*Term{j2}, Implies(And(tc.IdxLe(tc.IdxNum(0), j2), tc.IdxLt(j2, tlen)),
-					Eq(Select(nw, tc.IdxAdd(slen, j2)), Select(Select(h, tid), tc.IdxAdd(toff, j2)))))
+				// absolute index i, triggered by reads nw[i]
+				i2 := BoundVar("i", tc.IdxSort())
+				ni := Select(nw, i2)
+				a2 := Forall([]*Term{i2}, Implies(And(tc.IdxLe(slen, i2), tc.IdxLt(i2, n)),
+					Eq(ni, Select(Select(h, tid), tc.IdxAdd(toff, tc.IdxSub(i2, slen))))), []*Term{ni})
 				fx.assume(Implies(And(pc, Not(fits)), a2))
 			}
 			stGr.Heaps[name] = Store(h, nid, nw)
